@@ -45,8 +45,12 @@ def run_case(case):
     import rex.constants as const
     log = []
 
-    def host(code, seq):
+    wrong_reads = []
+
+    def host(code, seq, mism):
         log.append((int(code), int(seq)))
+        if int(mism) > 0:
+            wrong_reads.append((int(code), int(seq), int(mism)))
         return np.int32(0)
 
     @struct.dataclass
@@ -57,6 +61,7 @@ def run_case(case):
     @struct.dataclass
     class Out(Base):
         y: jax.Array
+        sseq: jax.Array        # the producer's own sequence number travels with the payload (default output: -1)
 
     class N(BaseNode):
         code = 0
@@ -68,14 +73,16 @@ def run_case(case):
             return St(jnp.array(0), jnp.array(1.0))
 
         def init_output(self, rng=None, graph_state=None):
-            return Out(jnp.array(-7.0))
+            return Out(jnp.array(-7.0), jnp.array(-1))
 
         def step(self, ss: StepState):
-            io_callback(host, jax.ShapeDtypeStruct((), jnp.int32), jnp.int32(self.code), ss.seq, ordered=True)
+            # C08: every window entry must carry the payload of the message the schedule names (its own seq), or the default output for a negative seq
+            mism = sum([jnp.sum(jnp.where(i.seq >= 0, i.data.sseq != i.seq, i.data.sseq != -1)) for i in ss.inputs.values()], 0)
+            io_callback(host, jax.ShapeDtypeStruct((), jnp.int32), jnp.int32(self.code), ss.seq, jnp.int32(mism), ordered=True)
             new_rng, k = jax.random.split(ss.rng)
             tot = sum([jnp.sum(jnp.where(i.seq >= 0, i.data.y + 0.01 * i.seq, 0.0)) for i in ss.inputs.values()], 0.0)
             acc = 0.9 * ss.state.acc + 0.1 * tot + jax.random.uniform(k) + ss.params.acc
-            return ss.replace(rng=new_rng, state=St(ss.state.cnt + 1, acc)), Out(acc)
+            return ss.replace(rng=new_rng, state=St(ss.state.cnt + 1, acc)), Out(acc, jnp.asarray(ss.seq))
     r = case["rates"]
     nm = {"plain": ("a", "b", "c"), "prefix": ("a", "a_x", "c")}[case["names"]]
     a = N(name=nm[0], rate=r[0], delay_dist=Normal(0.3 / r[0], 0.08 / r[0]) if case["jitter"] else Deterministic(0.3 / r[0]))
@@ -122,6 +129,14 @@ def run_case(case):
     r3 = rus(graph.rollout(gs0, max_steps=n, carry_only=True))
     jax.effects_barrier()
     log_roll = list(log)
+    checks += 1
+    # only for episodes run from their first partition and inside the horizon: a later start has empty rings for the messages produced before it, and beyond the
+    # horizon the step counter is clipped and partitions repeat
+    # (and not with a skip list: a skipped producer never writes its ring - its output is the user's business)
+    if wrong_reads and s0 == 0 and s0 + n + 1 <= n_steps and not skip:
+        names = {0: nm[0], 1: nm[1], 2: nm[2]}
+        bad.append(("C08-window-payload-is-not-the-scheduled-message", f"{len(wrong_reads)} steps saw a window entry whose payload is not the message the schedule names; first: "
+                    f"{names[wrong_reads[0][0]]} step {wrong_reads[0][1]} ({wrong_reads[0][2]} entries)"))
     for tag, other in (("reset;step^n", y), ("rollout(n);run_until_supervisor", r3)):
         checks += 1
         d = tree_diff(jax.tree_util.tree_map(np.asarray, r1.replace(timings_eps=None)), jax.tree_util.tree_map(np.asarray, other.replace(timings_eps=None)), jax)
